@@ -16,7 +16,6 @@ NA = {
     "C18": "oracle is the host CPU; instruction semantics are value-level",
     "C19": "oracle is a reference emulator; instruction semantics are value-level",
     "C21": "an equivalence of executions under different configurations; no shape-level clause beyond what C22/C23/C49 already decide",
-    "C26": "exact set semantics of interval arithmetic is value-level",
     "C34": "field layout and read-back of generated memory types is value-level",
     "C35": "oracle is GCC's x86-64 ABI",
     "C37": "SSA validity needs dominance reasoning over arbitrary input graphs at run time",
